@@ -533,6 +533,9 @@ func (x *Exec) isAlloc(st *State, r Term) Term {
 }
 
 func (x *Exec) nilCheck(st *State, p Term, n ast.Node) {
+	if si := x.d.sorts[p.Sort]; si != nil && (si.Kind == "struct" || si.Kind == "node") {
+		return // owned tree values are never nil
+	}
 	if p.Sort != "Ref" {
 		if si := x.d.sorts[p.Sort]; si != nil && si.Kind == "list" {
 			x.oblige(st, "safety", "nil-deref", tNot(tApp("Bool", "(_ is nil_"+p.Sort+")", p)), n, "cell pointer is not nil")
@@ -584,6 +587,9 @@ func (x *Exec) fieldByIndex(st *State, b Term, bt types.Type, idx int, n ast.Nod
 		return b
 	}
 	f := s.Field(idx)
+	if isPtr && x.isValuePtrType(bt) {
+		isPtr = false // owned tree node: the pointer is the value
+	}
 	if isPtr {
 		if adt, ok := x.adts[qualName(named)]; ok {
 			x.nilCheck(st, b, n)
@@ -616,6 +622,10 @@ func (x *Exec) fieldByIndex(st *State, b Term, bt types.Type, idx int, n ast.Nod
 
 // derefWhole reads *p as a value.
 func (x *Exec) derefWhole(st *State, p Term, t types.Type, n ast.Node) Term {
+	if p.Sort != "Ref" && x.isValuePtrType(t) {
+		p.Ty = t
+		return p
+	}
 	named, s, _ := structBehind(t)
 	if s != nil && named != nil {
 		so := x.sortOf(t)
@@ -665,6 +675,9 @@ func (x *Exec) storePath(st *State, fr *Frame, n ast.Node, baseExpr ast.Expr, b 
 		return
 	}
 	f := s.Field(path[0])
+	if isPtr && x.isValuePtrType(bt) {
+		isPtr = false
+	}
 	if isPtr {
 		if _, ok := x.adts[qualName(named)]; ok {
 			x.oblige(st, "model", "adt-immutable", tFalse, n, "store into a cell of an immutable ADT model")
@@ -696,6 +709,9 @@ func (x *Exec) storePath(st *State, fr *Frame, n ast.Node, baseExpr ast.Expr, b 
 // updateValue returns struct value b with the field at path replaced by v.
 func (x *Exec) updateValue(st *State, fr *Frame, n ast.Node, b Term, bt types.Type, path []int, v Term) Term {
 	_, s, isPtr := structBehind(bt)
+	if isPtr && x.isValuePtrType(bt) {
+		isPtr = false
+	}
 	if isPtr || s == nil {
 		x.unsupported(n, "nested store through %s", bt)
 		return b
@@ -730,6 +746,10 @@ func (x *Exec) addrOf(st *State, fr *Frame, e *ast.UnaryExpr) Term {
 			}
 		}
 		v := x.composite(st, fr, in)
+		if x.isValuePtrType(x.info.TypeOf(e)) {
+			v.Ty = x.info.TypeOf(e)
+			return v
+		}
 		r := x.alloc(st, "new", x.info.TypeOf(e))
 		if named != nil && s != nil {
 			si := x.d.sorts[v.Sort]
